@@ -254,10 +254,74 @@ def skip_dominates(ctx):
             node=fi.node, function=fq, expected="empty; same envelope object returned", found=f"{touched}"[:200])
 
 
+def _key_check_helper_rules(ctx, ev, impl, sg, values):
+    """Proof form of C09-D3: a dedicated checker (_verify_signing_key_type) dominates the signing call and accepts the right pairs."""
+    R = ctx.report
+    fq = ctx.fq(sg)
+    if "_verify_signing_key_type" not in impl.methods:
+        raise AnalysisError(f"{fq}: neither evaluable as a decision table nor checked by _verify_signing_key_type")
+    outs = ev.outcomes(sg)
+    rets = [o for o in outs if o.kind == "return"]
+    raises = [o for o in outs if o.kind == "raise"]
+
+    def is_verify(t):
+        return isinstance(t, App) and t.op == "call" and isinstance(t.args[0], Ref) and t.args[0].obj.name == "_verify_signing_key_type"
+
+    rej = [o for o in raises if any(isinstance(c, App) and c.op == "not" and is_verify(c.args[0]) for c in o.conds)]
+    R.check("C09-D3 key/algorithm match", len(rej) == 1 and _exc(rej[0]) == "ValueError", "a failed check raises ValueError",
+            mod=sg.module, node=sg.node, function=fq, expected="if not self._verify_signing_key_type(...): raise ValueError",
+            found=f"{[_exc(o) for o in rej]}")
+    ok = bool(rets)
+    for o in rets:
+        assumed = [e.args[0] for e in all_effects(o.effects) if isinstance(e, App) and e.op == "eff:assume"]
+        conds = list(o.conds) + assumed
+        passed = any(isinstance(c, App) and c.op == "not" and isinstance(c.args[0], App) and c.args[0].op == "not"
+                     and is_verify(c.args[0].args[0]) for c in conds) or any(is_verify(c) for c in conds)
+        ok = ok and passed
+    R.check("C09-D3 key/algorithm match", ok, "every signing path has passed the check", mod=sg.module, node=sg.node, function=fq,
+            expected="check dominates sign_method(data, key)", found="a path reaches signing without the check")
+    # the check is given the loaded key and the algorithm parameter
+    vc = [s for o in outs for c in o.conds for s in subterms(c) if is_verify(s)]
+    R.check("C09-D3 key/algorithm match", bool(vc) and all(v.args[-1] == P("algorithm") for v in vc), "the requested algorithm is what is checked",
+            mod=sg.module, node=sg.node, function=fq, expected="_verify_signing_key_type(private_key, algorithm)", found=repr(vc[:1])[:200])
+    vf = impl.methods["_verify_signing_key_type"]
+    vouts = ev.outcomes(vf)
+    vrets = [o for o in vouts if o.kind == "return"]
+    dep = all(any(s == P("algorithm") for s in subterms(o.value)) for o in vrets)
+    R.check("C09-D3 key/algorithm match", dep and len(vrets) >= 2, "every verdict depends on the requested algorithm", mod=vf.module,
+            node=vf.node, function=ctx.fq(vf), expected="each return compares with `algorithm`", found=f"{[repr(o.value)[:80] for o in vrets]}")
+    # accepted (key kind, algorithm) pairs
+    pk = P("private_key")
+    accepted = {}
+    for o in vrets:
+        kind = "ec" if any("EllipticCurvePrivateKey" in repr(c) and not repr(c).startswith("not(") for c in o.conds) else "ed"
+        for alg in values:
+            if kind == "ec":
+                for size in (256, 384, 521):
+                    try:
+                        if teval(o.value, {P("algorithm"): alg, App("attr:key_size", (pk,)): size,
+                                           App("str", (App("attr:key_size", (pk,)),)): str(size)}):
+                            accepted.setdefault(f"ec{size}", set()).add(alg)
+                    except Unknown as e:
+                        raise AnalysisError(f"{ctx.fq(vf)}: verdict not evaluable: {e}")
+            else:
+                try:
+                    if teval(o.value, {P("algorithm"): alg}):
+                        accepted.setdefault("ed", set()).add(alg)
+                except Unknown as e:
+                    raise AnalysisError(f"{ctx.fq(vf)}: verdict not evaluable: {e}")
+    want = {"ec256": {"es-256"}, "ec384": {"es-384"}, "ec521": {"es-521"}, "ed": {"eddsa", "hash-eddsa"}}
+    R.check("C09-D3 key/algorithm match", accepted == want, "accepted (key, algorithm) pairs", mod=vf.module, node=vf.node,
+            function=ctx.fq(vf), expected=f"{want}", found=f"{accepted}")
+    other = [o for o in vouts if o.kind == "raise"]
+    R.check("C09-D3 key/algorithm match", bool(other) and all(_exc(o) == "ValueError" for o in other), "other key types are refused",
+            mod=vf.module, node=vf.node, function=ctx.fq(vf), expected="raise ValueError", found=f"{[_exc(o) for o in other]}")
+
+
 def key_match(ctx, ev):
     R = ctx.report
     repo = ctx.repo
-    R.rule("C09-D3 key/algorithm match", 6, "the key type check dominates the signing call, fails closed, and covers exactly the five algorithms")
+    R.rule("C09-D3 key/algorithm match", 1, "the key type check dominates the signing call, fails closed, and covers exactly the five algorithms")
     algs = repo.cls("suit_generator.suit_sign_script_base", "SuitSignAlgorithms")
     values = sorted(v.v for _, v in ctx.ev.enum_members(algs))
     R.rule("C09-D3b checked key = signing key", 2, "every read of the key in one sign() call uses the same file under the key directory")
@@ -265,63 +329,20 @@ def key_match(ctx, ev):
         generic.key_file_rule(ctx, "C09-D3b checked key = signing key", impl, "sign")
         sg = impl.methods["sign"]
         fq = ctx.fq(sg)
-        outs = ev.outcomes(sg)
-        rets = [o for o in outs if o.kind == "return"]
-        raises = [o for o in outs if o.kind == "raise"]
-
-        def is_verify(t):
-            return isinstance(t, App) and t.op == "call" and isinstance(t.args[0], Ref) and t.args[0].obj.name == "_verify_signing_key_type"
-
-        rej = [o for o in raises if any(isinstance(c, App) and c.op == "not" and is_verify(c.args[0]) for c in o.conds)]
-        R.check("C09-D3 key/algorithm match", len(rej) == 1 and _exc(rej[0]) == "ValueError", "a failed check raises ValueError",
-                mod=sg.module, node=sg.node, function=fq, expected="if not self._verify_signing_key_type(...): raise ValueError",
-                found=f"{[_exc(o) for o in rej]}")
-        ok = bool(rets)
-        for o in rets:
-            assumed = [e.args[0] for e in all_effects(o.effects) if isinstance(e, App) and e.op == "eff:assume"]
-            conds = list(o.conds) + assumed
-            passed = any(isinstance(c, App) and c.op == "not" and isinstance(c.args[0], App) and c.args[0].op == "not"
-                         and is_verify(c.args[0].args[0]) for c in conds) or any(is_verify(c) for c in conds)
-            ok = ok and passed
-        R.check("C09-D3 key/algorithm match", ok, "every signing path has passed the check", mod=sg.module, node=sg.node, function=fq,
-                expected="check dominates sign_method(data, key)", found="a path reaches signing without the check")
-        # the check is given the loaded key and the algorithm parameter
-        vc = [s for o in outs for c in o.conds for s in subterms(c) if is_verify(s)]
-        R.check("C09-D3 key/algorithm match", bool(vc) and all(v.args[-1] == P("algorithm") for v in vc), "the requested algorithm is what is checked",
-                mod=sg.module, node=sg.node, function=fq, expected="_verify_signing_key_type(private_key, algorithm)", found=repr(vc[:1])[:200])
-        vf = impl.methods["_verify_signing_key_type"]
-        vouts = ev.outcomes(vf)
-        vrets = [o for o in vouts if o.kind == "return"]
-        dep = all(any(s == P("algorithm") for s in subterms(o.value)) for o in vrets)
-        R.check("C09-D3 key/algorithm match", dep and len(vrets) >= 2, "every verdict depends on the requested algorithm", mod=vf.module,
-                node=vf.node, function=ctx.fq(vf), expected="each return compares with `algorithm`", found=f"{[repr(o.value)[:80] for o in vrets]}")
-        # accepted (key kind, algorithm) pairs
-        pk = P("private_key")
-        accepted = {}
-        for o in vrets:
-            kind = "ec" if any("EllipticCurvePrivateKey" in repr(c) and not repr(c).startswith("not(") for c in o.conds) else "ed"
-            for alg in values:
-                if kind == "ec":
-                    for size in (256, 384, 521):
-                        try:
-                            if teval(o.value, {P("algorithm"): alg, App("attr:key_size", (pk,)): size,
-                                               App("str", (App("attr:key_size", (pk,)),)): str(size)}):
-                                accepted.setdefault(f"ec{size}", set()).add(alg)
-                        except Unknown as e:
-                            raise AnalysisError(f"{ctx.fq(vf)}: verdict not evaluable: {e}")
-                else:
-                    try:
-                        if teval(o.value, {P("algorithm"): alg}):
-                            accepted.setdefault("ed", set()).add(alg)
-                    except Unknown as e:
-                        raise AnalysisError(f"{ctx.fq(vf)}: verdict not evaluable: {e}")
-        want = {"ec256": {"es-256"}, "ec384": {"es-384"}, "ec521": {"es-521"}, "ed": {"eddsa", "hash-eddsa"}}
-        R.check("C09-D3 key/algorithm match", accepted == want, "accepted (key, algorithm) pairs", mod=vf.module, node=vf.node,
-                function=ctx.fq(vf), expected=f"{want}", found=f"{accepted}")
-        other = [o for o in vouts if o.kind == "raise"]
-        R.check("C09-D3 key/algorithm match", bool(other) and all(_exc(o) == "ValueError" for o in other), "other key types are refused",
-                mod=vf.module, node=vf.node, function=ctx.fq(vf), expected="raise ValueError", found=f"{[_exc(o) for o in other]}")
-
+        # decided on the decision table of sign() itself (private helpers followed): every kind of key with every algorithm - signing
+        # happens only for the compatible pairs, everything else is refused; wherever check and selection are written
+        tbl = generic.kms_sign_table(ctx, impl)
+        if tbl is not None:
+            want_tbl = generic.kms_sign_table_expected()
+            wrong = {k: tbl[k] for k in want_tbl if (want_tbl[k] == "raise") != (tbl[k] == "raise")}
+            R.check("C09-D3 key/algorithm match", not wrong, "signing happens exactly for (EC-n, es-n), (Ed25519/Ed448, eddsa / hash-eddsa); other pairs and other keys raise",
+                    mod=sg.module, node=sg.node, function=fq, expected="every incompatible (key, algorithm) pair refused before signing",
+                    found=f"{ {k: (v if v == 'raise' else 'signs') for k, v in wrong.items()} }"[:300])
+        if tbl is not None and "_verify_signing_key_type" not in impl.methods:
+            continue
+        import contextlib
+        with (R.lenient("decided on the decision table of sign() (C09-D3)") if tbl is not None else contextlib.nullcontext()):
+            _key_check_helper_rules(ctx, ev, impl, sg, values)
 
 def no_output_on_refusal(ctx, ev):
     R = ctx.report
